@@ -167,7 +167,7 @@ def _mphys_model(sc, emitted):
 def _mphys_job(a):
     k, mode = a
     rng = np.random.default_rng(seed() * 71 + k)
-    cls = dict(span=["full", "half"][k % 2], side=["F", "L", "F", "R"][k % 4], ground=False, rot=False, nsurf=1 + (k // 2) % 2, symflow=k % 2 == 1, compressible=k % 3 != 0)
+    cls = dict(span=["full", "half"][k % 2], side=["F", "L", "F", "R"][k % 4], ground=False, rot=False, nsurf=1 + (k // 2) % 3, symflow=k % 2 == 1, compressible=k % 3 != 0)  # one to three surfaces
     sc = laws.base_scenario(cls, rng, k)
     if sc.compressible:
         sc.flow["Mach_number"] = 0.55
